@@ -30,7 +30,7 @@ impl Driver {
         let o = self.w.apply(&act);
         vh_common::disarm();
         let res = if o.res.starts_with("panic") { "panic".to_string() } else { o.res.clone() };
-        let line = json!({"act": act, "out": {"res": res, "evs": o.evs, "outs": o.outs}, "detail": o.res,
+        let line = json!({"act": act, "out": {"res": res, "evs": o.evs, "outs": o.outs, "w": o.warn_class()}, "detail": o.res,
                           "st": self.w.proj(), "malformed": self.w.malformed.len()});
         // written at once: a later hang must not lose the prefix of the trace
         let _ = writeln!(self.file, "{}", line);
@@ -47,12 +47,16 @@ impl Driver {
         }
     }
     fn send(&mut self, e: usize, v: bool, sz: usize) -> Outcome {
+        self.send_k(e, v, sz, 0)
+    }
+    /// `k`: the send callback refuses the k-th datagram of this call (0: none)
+    fn send_k(&mut self, e: usize, v: bool, sz: usize, k: u32) -> Outcome {
         if !self.online(e) {
             // callers only make calls the state permits
             return Outcome::default();
         }
         let id = self.id_for(e, sz);
-        self.step(json!({"a": "send", "e": E[e], "v": v, "sz": sz, "id": id}))
+        self.step(json!({"a": "send", "e": E[e], "v": v, "sz": sz, "id": id, "k": k}))
     }
     fn online(&self, e: usize) -> bool {
         self.w.proj_ep(e)["st"] == json!("Onl")
@@ -108,37 +112,66 @@ pub fn main(args: &[String]) -> i32 {
     let sizes: Vec<usize> = vec![0, 1, 2, 3, 16, 17, 63, 64, 100, 255, 256, 600, 1000, 1022, 1023, 1024, 1386, 1387, 1388, 1390, 1391, 2000];
 
     match scenario.as_str() {
-        "random" => {
+        "random" | "sessions" => {
+            // "sessions": the same, and the applications close, reset() and reconnect on the same objects while
+            // datagrams of the old session are still in flight; the 0.6 acceptor sometimes replaces its pending
+            // connection by Connection::new_accept_token
+            let sessions = scenario == "sessions";
             let loss: f64 = arg(args, "--loss", "0.15").parse().unwrap();
+            // the send callback refuses the k-th datagram of some calls
+            let pfail: f64 = arg(args, "--pfail", "0.08").parse().unwrap();
             if !mode.init_online {
-                d.step(json!({"a": "connect", "e": "c"}));
+                d.step(json!({"a": "connect", "e": "c", "k": 0}));
             }
-            while d.out.len() < n {
+            let mut guard = 0usize;
+            while d.out.len() < n && guard < 50 * n + 1000 {
+                guard += 1;
                 let e = rng.gen_range(0..2usize);
                 let inflight = d.w.net[0].len() + d.w.net[1].len();
                 let r: f64 = rng.gen();
+                let k: u32 = if rng.gen::<f64>() < pfail { rng.gen_range(1..=2u32) } else { 0 };
+                if sessions && rng.gen::<f64>() < 0.06 {
+                    let st = d.w.proj_ep(e)["st"].as_str().unwrap_or("").to_string();
+                    let nsess = d.w.bnd[e].len();
+                    if st == "Disc" {
+                        if nsess < 7 {
+                            d.step(json!({"a": "creset", "e": E[e]}));
+                        }
+                    } else if st == "Unc" && e == 0 {
+                        d.step(json!({"a": "connect", "e": "c", "k": k}));
+                    } else if st == "Pend" && e == 1 && !mode.v7 && d.w.proj_ep(1)["tok"] != json!("no") && rng.gen::<f64>() < 0.5 {
+                        d.step(json!({"a": "accepttoken", "e": "s"}));
+                    } else if st != "Unc" && rng.gen::<f64>() < 0.4 {
+                        d.step(json!({"a": "disconnect", "e": E[e], "r": rng.gen_range(0..20usize), "k": k}));
+                    }
+                    continue;
+                }
                 if inflight > 8 || (inflight > 0 && r < 0.35) {
                     let from = if d.w.net[0].is_empty() { 1 } else if d.w.net[1].is_empty() { 0 } else { rng.gen_range(0..2usize) };
                     let len = d.w.net[from].len();
                     let i = if rng.gen::<f64>() < 0.7 { 1 } else { rng.gen_range(1..=len) };
                     let x: f64 = rng.gen();
                     let a = if x < loss { "drop" } else if x < loss + 0.08 { "dup" } else { "deliver" };
-                    d.step(json!({"a": a, "from": E[from], "i": i}));
+                    if a == "drop" {
+                        d.step(json!({"a": a, "from": E[from], "i": i}));
+                    } else {
+                        d.step(json!({"a": a, "from": E[from], "i": i, "k": k}));
+                    }
                 } else if r < 0.60 {
                     if d.online(e) && d.unacked(e) < 400 {
                         let v = rng.gen::<f64>() < 0.7;
                         let sz = if rng.gen::<f64>() < 0.5 { sizes[rng.gen_range(0..sizes.len())] } else { rng.gen_range(0..=max_sz) };
-                        d.send(e, v, sz);
+                        d.send_k(e, v, sz, k);
                     }
                 } else if r < 0.68 {
                     if d.online(e) {
-                        d.step(json!({"a": "flush", "e": E[e]}));
+                        d.step(json!({"a": "flush", "e": E[e], "k": k}));
                     }
                 } else if r < 0.86 {
                     // tick: mostly when due
                     let due = d.w.needs_tick_ms(e) == 0;
                     if due || rng.gen::<f64>() < 0.2 {
-                        d.step(json!({"a": "tick", "e": E[e]}));
+                        d.step(json!({"a": "tick", "e": E[e], "k": k}));
                     }
                 } else if r < 0.97 {
                     // advance: to the next deadline, or a random amount
@@ -149,7 +182,7 @@ pub fn main(args: &[String]) -> i32 {
                     if d.online(e) {
                         let sz = sizes[rng.gen_range(0..sizes.len())];
                         let id = d.id_for(e, sz);
-                        d.step(json!({"a": "connless", "e": E[e], "sz": sz, "id": id}));
+                        d.step(json!({"a": "connless", "e": E[e], "sz": sz, "id": id, "k": k}));
                     }
                 } else {
                     // a forged datagram with a foreign token (only once the token is fixed)
@@ -280,6 +313,85 @@ pub fn main(args: &[String]) -> i32 {
                 d.step(json!({"a": "tick", "e": "s"}));
                 d.drain(6);
             }
+        }
+        "cbfail" => {
+            // the send callback refuses datagrams at every stage: connect request, handshake answers, the flush inside
+            // send(), explicit flushes, keep-alives, every position of a resend that spans several datagrams, connless,
+            // the close message -- and the connection must carry on (each refused datagram is a lost datagram)
+            d.step(json!({"a": "connect", "e": "c", "k": 1}));
+            d.step(json!({"a": "advance", "d": 500}));
+            d.step(json!({"a": "tick", "e": "c", "k": 1}));
+            d.step(json!({"a": "advance", "d": 500}));
+            d.step(json!({"a": "tick", "e": "c", "k": 0}));
+            // every answer of the handshake is refused once, then repeated by the timer
+            for _ in 0..8 {
+                for e in 0..2 {
+                    while !d.w.net[e].is_empty() {
+                        d.step(json!({"a": "deliver", "from": E[e], "i": 1, "k": 1}));
+                    }
+                }
+                d.step(json!({"a": "advance", "d": 500}));
+                for e in 0..2 {
+                    d.step(json!({"a": "tick", "e": E[e], "k": 0}));
+                }
+                if d.online(0) {
+                    break;
+                }
+            }
+            d.drain(3);
+            // the accepting side comes online with the first chunks packet: the first one is refused
+            d.send(0, false, 1);
+            d.step(json!({"a": "flush", "e": "c", "k": 1}));
+            d.send(0, true, 1);
+            d.step(json!({"a": "flush", "e": "c", "k": 0}));
+            d.drain(3);
+            for round in 0..3u32 {
+                // largest chunks: every send() flushes the previous one; every other flush is refused
+                for j in 0..6u32 {
+                    d.send_k(0, true, max_sz, (j + round) % 2);
+                    d.send_k(1, j % 3 == 0, 600, j % 2);
+                }
+                d.step(json!({"a": "flush", "e": "c", "k": 1}));
+                d.step(json!({"a": "flush", "e": "s", "k": round % 2}));
+                while !d.w.net[0].is_empty() {
+                    d.step(json!({"a": "drop", "from": "c", "i": 1}));
+                }
+                // the resend spans six datagrams; the callback refuses the 2nd, then the 4th, then the 1st, then none
+                for k in [2u32, 4, 1, 0] {
+                    d.step(json!({"a": "advance", "d": 1000}));
+                    d.step(json!({"a": "tick", "e": "c", "k": k}));
+                    d.step(json!({"a": "tick", "e": "s", "k": if k == 4 { 1 } else { 0 }}));
+                }
+                d.step(json!({"a": "advance", "d": 500}));
+                d.step(json!({"a": "tick", "e": "c", "k": 0}));
+                // deliveries that trigger answers (resend requests): some of the answers are refused
+                for i in 0..4u32 {
+                    for e in 0..2 {
+                        let mut n = 0u32;
+                        while !d.w.net[e].is_empty() {
+                            n += 1;
+                            d.step(json!({"a": "deliver", "from": E[e], "i": 1, "k": if (n + i) % 3 == 0 { 1 } else { 0 }}));
+                        }
+                    }
+                    d.step(json!({"a": "advance", "d": 500}));
+                    d.step(json!({"a": "tick", "e": "c", "k": if i == 1 { 1 } else { 0 }}));
+                    d.step(json!({"a": "tick", "e": "s", "k": 0}));
+                }
+                let id = d.id_for(0, 9);
+                d.step(json!({"a": "connless", "e": "c", "sz": 9, "id": id, "k": 1}));
+                let id = d.id_for(0, 9);
+                d.step(json!({"a": "connless", "e": "c", "sz": 9, "id": id, "k": 0}));
+                d.drain(4);
+            }
+            // fair end: everything gets through
+            for _ in 0..6 {
+                d.step(json!({"a": "advance", "d": 1000}));
+                d.step(json!({"a": "tick", "e": "c", "k": 0}));
+                d.step(json!({"a": "tick", "e": "s", "k": 0}));
+                d.drain(6);
+            }
+            d.step(json!({"a": "disconnect", "e": "c", "r": 5, "k": 1}));
+            d.drain(2);
         }
         "fill" => {
             // packets filled to every total around the payload limit (1380..1400 queued bytes incl. chunk
